@@ -98,7 +98,9 @@ RECURSIVE EncVerdict(_, _, _)
 EncVerdict(m, o, res) ==
   LET v == <<CR, LF>> \o o                      \* the payload follows the CR LF of the DATA command line
       eods == Occ(v, EOD)
-  IN IF res = "failed"      \* something failed (a system call, the connection) and the client reports the message as not delivered:
+  IN IF res = "nodata"      \* the server refused the DATA command (4xx / 5xx): not one byte of the message may follow - it would be read as commands
+       THEN (IF o # <<>> THEN "ContentSentAlthoughDataRefused" ELSE "")
+     ELSE IF res = "failed"      \* something failed (a system call, the connection) and the client reports the message as not delivered:
        THEN (IF eods = {} THEN ""                   \* abandoned before or inside DATA: no end-of-data may have been sent;
              ELSE EncVerdict(m, o, "ok"))           \* or the failure came after the final dot: what was sent is the whole message
      ELSE IF res # "ok"
